@@ -7,6 +7,7 @@
 import BespokeVerif.Model.Output
 import BespokeVerif.Lemmas.Output
 import BespokeVerif.Lemmas.FormatsImage
+import BespokeVerif.Lemmas.Listing
 namespace BV.C16
 open BV
 
@@ -134,5 +135,26 @@ def exPl : List Placed := [{ line := { stmt := .bytes [1, 2], scope := .file 0, 
   { line := { stmt := .bytes [3], scope := .file 0, zone := "GLOBAL", muted := false, file := 0 }, addr := 8, size := 1 }]
 example : (emitAll exCfg16 {} exPl).toOption.map emittedMap = some [(0, 1), (1, 2), (8, 3)] := by decide +kernel
 example : (toOutLines exCfg16 {} exPl).toOption.map outLinesMap = some [(0, 1), (1, 2), (8, 3)] := by decide +kernel
+
+
+/-! ## the listing: rows of one statement -/
+
+/-- the rows a statement's bytes are spread over carry all of its bytes, in order -/
+theorem listing_rows_carry_all_bytes (k : Nat) (hk : 0 < k) (bs : List Nat) :
+    (chunkRows k bs.length bs).flatten = bs :=
+  chunkRows_flatten k hk bs.length bs (Nat.le_refl _)
+
+/-- no row is wider than the listing's bytes-per-row -/
+theorem listing_row_width (k : Nat) (bs : List Nat) : ∀ c ∈ chunkRows k bs.length bs, c.length ≤ k :=
+  chunkRows_row_le k bs.length bs
+
+/-- the listing shows each assembled statement exactly once, with the address it was assigned and all the bytes it
+    produced, however many continuation rows its bytes take: decoding the rows gives back the statements -/
+theorem listing_statement_once (k : Nat) (hk : 0 < k) (rows : List LRow) :
+    mergePRows (rows.flatMap (encListingLine k)) [] = rows :=
+  mergePRows_listing k hk rows
+
+example : encListingLine 6 ⟨3, 16, [1, 2, 3, 4, 5, 6, 7, 8]⟩ = [.primary 3 16 [1, 2, 3, 4, 5, 6], .cont [7, 8]] := by decide
+example : encListingLine 6 ⟨4, 24, []⟩ = [.primary 4 24 []] := by decide
 
 end BV.C16
